@@ -10,7 +10,7 @@ from hypothesis import strategies as st
 
 from tcv import values
 
-TASK_NAMES = ['a', 'xa', 'b', 'train_x', 'n', 'xn', 'c', 'd', 'ax', 'e']
+TASK_NAMES = ['a', 'xa', 'b', 'train_x', 'n', 'xn', 'c', 'd', 'ax', 'e', 'g', 'm']
 PATTERN_NAMES = ['p_a', 'p_b', 'p_xa']
 GROUPS = [None, None, 'g', 'xg', 'g:h']
 MODULE_NAMES = ['alpha', 'beta', 'gamma', 'delta']
@@ -19,7 +19,7 @@ MOUNT_NS = ['n', 'xn', 'm', 'train', 'n2', 'a']
 KINDS_BASIC = ['dict', 'dict', 'list', 'str', 'int']
 KINDS_ALL = ['dict', 'list', 'str', 'int', 'numpy', 'frame', 'generator', 'lazy', 'list_numpy', 'dir', 'memory',
              'gen_empty']
-PARAM_KEYS = ['x', 'y', 'z', 'lr', 'path', 'opt']
+PARAM_KEYS = ['x', 'y', 'z', 'lr', 'path', 'opt', 'x2', 'lr10']
 
 # quote-free text, sometimes with placeholders (defined: DATA, CFGDIR when global_vars are given; UNDEF never)
 TEXT_PH = st.one_of(values.TEXT_SMALL, values.TEXT_SMALL, values.TEXT_SMALL,
@@ -151,6 +151,25 @@ def programs(draw, max_modules=3, max_tasks=4, kinds=KINDS_BASIC, patterns=True,
             mod['tasks'].append({'cls': cls, 'name': nm, 'derive_name': False, 'group': None, 'base': 'Task',
                                  'abstract': False, 'slug': nm, 'params': [], 'inputs': [], 'kind': 'dict',
                                  'style': 'args'})
+        # occasionally: two tasks with one short name (ungrouped and grouped) and a dependant that declares both,
+        # in either order - a full name must address its own task, the less-nested one does not hide the other
+        if draw(st.integers(0, 3)) == 0 and f'sib{mi}' not in used_slugs:
+            base_t = {'derive_name': False, 'base': 'Task', 'abstract': False, 'params': [], 'inputs': [], 'kind': 'dict',
+                      'style': 'index'}
+            idx0 = len(mod['tasks'])
+            for grp in (None, draw(st.sampled_from(['g', 'xg', 'g:h']))):
+                cls = 'Q' + chr(97 + cls_counter // 26) + chr(97 + cls_counter % 26)
+                cls_counter += 1
+                slug = f'{grp}:sib{mi}' if grp else f'sib{mi}'
+                used_slugs.add(slug)
+                mod['tasks'].append(dict(copy.deepcopy(base_t), cls=cls, name=f'sib{mi}', group=grp, slug=slug))
+            cls = 'Q' + chr(97 + cls_counter // 26) + chr(97 + cls_counter % 26)
+            cls_counter += 1
+            order = [idx0, idx0 + 1] if draw(st.booleans()) else [idx0 + 1, idx0]
+            used_slugs.add(f'sibuser{mi}')
+            mod['tasks'].append(dict(copy.deepcopy(base_t), cls=cls, name=f'sibuser{mi}', group=None, slug=f'sibuser{mi}',
+                                     inputs=[{'form': draw(st.sampled_from(['gname', 'class'])), 'mod': mi, 'task': k,
+                                              'rel': '', 'optional': False, 'via_param': False} for k in order]))
         # occasionally an abstract task that wildcards must skip
         if draw(st.integers(0, 4)) == 0:
             cls = 'Q' + chr(97 + cls_counter // 26) + chr(97 + cls_counter % 26)
@@ -202,10 +221,16 @@ def param_keys_of_module(mod):
 
 
 @st.composite
-def value_for(draw, plist):
+def value_for(draw, plist, nested_ok=True):
     """A config value acceptable for every parameter declared under this key."""
     if any(p.get('object') for p in plist):
         cls = [p['object'] for p in plist if p.get('object')][0]
+        if cls in ('Oa', 'Ob') and not nested_ok:
+            pass
+        elif cls in ('Oa', 'Ob') and draw(st.integers(0, 3)) == 0:
+            # parameter objects INSIDE a list / mapping parameter value
+            inner = [draw(value_for(plist, nested_ok=False)) for _ in range(draw(st.integers(1, 2)))]
+            return inner if draw(st.booleans()) else {'first': inner[0], 'n': draw(values.small_ints)}
         if cls == 'Oa':
             return {'__object__': 'Oa', 'args': [draw(_pv())], 'kwargs': draw(st.sampled_from([{}, {'y': 1}, {'y': 'q'}]))}
         kw = {}
@@ -279,7 +304,8 @@ def config_trees(draw, program, n_variants=None, allow_multi=True, allow_context
             for d in mod['deps']:
                 node['uses'].append({'file': None, 'mod': d['mod'], 'variant': v, 'ns': d['rel'] or None})
             fmt = draw(st.sampled_from(['json', 'json', 'yaml']))
-            files.append({'name': f'{mod["name"]}_v{v}', 'fmt': fmt, 'node': node})
+            sep = draw(st.sampled_from(['_v', '_v', '.v']))   # config names may contain dots (exp.v2.yaml -> exp.v2)
+            files.append({'name': f'{mod["name"]}{sep}{v}', 'fmt': fmt, 'node': node})
             index[(mi, v)] = len(files) - 1
     for f in files:
         for u in f['node']['uses']:
